@@ -2,7 +2,8 @@
 //! stdin: one case per line `(name <arg>)`; arg: `(i n) | (b <rope>) | (t args..) | (o)`;
 //! rope: `(own hex) | (zero n) | (cat r r) | (slice r off len) | (tile r n)` built with the real
 //! BinaryData constructors and placed on the executor heap.
-//! stdout per case: `(ok <val>) | (err Class) | (panic "file:line")`; val: `(i n) | (b len hex) | (t ..)`.
+//! stdout per case: `(ok <val>) | (err Class) | (panic "file:line")`; val: `(i n) | (b len hex) | (t ..)`;
+//! a binary result is followed by ` #shape=<rope shape>` (O/Z/S/C/T constructors of the result rope).
 //! `--names`: list registered builtin names with their signatures. `--via-program`: additionally
 //! not supported here (see qv_eval for the compiled path).
 use num_bigint::BigInt;
@@ -38,6 +39,43 @@ fn value_of(s: &Sexp, ex: &mut Executor<TestEffect>) -> Value {
         }
         "o" => Value::Reference(7),
         other => panic!("bad value {}", other),
+    }
+}
+
+/// Structural shape of a rope: O<len> | Z<len> | S(<parent>,off,len) | C(<l>,<r>) | T(<unit>,count).
+/// Iterative on the left spine of Concat so that deep push-built ropes do not overflow the stack.
+fn shape(d: &BinaryData, out: &mut String) {
+    match d {
+        BinaryData::Owned(v) => out.push_str(&format!("O{}", v.len())),
+        BinaryData::Zeroed(n) => out.push_str(&format!("Z{}", n)),
+        BinaryData::Slice { parent, offset, length } => {
+            out.push_str("S(");
+            shape(parent, out);
+            out.push_str(&format!(",{},{})", offset, length));
+        }
+        BinaryData::Concat { left, right, .. } => {
+            out.push_str("C(");
+            shape(left, out);
+            out.push(',');
+            shape(right, out);
+            out.push(')');
+        }
+        BinaryData::Tiled { unit, count } => {
+            out.push_str("T(");
+            shape(unit, out);
+            out.push_str(&format!(",{})", count));
+        }
+    }
+}
+
+/// `#shape=` suffix for a binary result (the model also predicts the rope shape the builtin builds).
+fn shape_suffix(v: &Value, ex: &Executor<TestEffect>) -> String {
+    if let Value::Binary(Binary::Heap(i)) = v {
+        let mut s = String::from(" #shape=");
+        shape(ex.get_heap_binary(*i).unwrap(), &mut s);
+        s
+    } else {
+        String::new()
     }
 }
 
@@ -110,7 +148,7 @@ fn main() {
             let mut ex = Executor::<TestEffect>::new(reg.clone(), false, 0);
             let arg = value_of(&case.list()[1], &mut ex);
             match f(0, &arg, &mut ex) {
-                Ok(BuiltinResult::Value(v)) => format!("(ok {})", dump(&v, &ex)),
+                Ok(BuiltinResult::Value(v)) => format!("(ok {}){}", dump(&v, &ex), shape_suffix(&v, &ex)),
                 Ok(BuiltinResult::Action(_)) => "(action)".to_string(),
                 Err(e) => format!("(err {})", error_class(&e)),
             }
